@@ -12,7 +12,6 @@ import (
 	"reflect"
 	"sort"
 	"strings"
-	"sync"
 	"time"
 
 	sdkmath "cosmossdk.io/math"
@@ -649,11 +648,6 @@ func (g *gen) extra(h *tssworld.Hist, ops *[]*tssworld.TxRec) {
 	}
 }
 
-var (
-	kindsMu sync.Mutex
-	kinds   = map[string]bool{}
-)
-
 func baseCfg(r *sim.Rng, i int, thorough bool, blocks int) tssworld.Cfg {
 	nm := r.Range(3, 5)
 	cfg := tssworld.Cfg{
@@ -741,6 +735,7 @@ func main() {
 		"oracle.SamplingTryCount is capped at 1000 (unmetered loop count; larger values are declared unexplored)",
 		"IBC relay messages are not generated; a single block taking more than 60 s is reported as non-termination")
 	thorough := run.Thorough()
+	run.Shard(4) // thorough: ~25 000 application objects (3 replicas, restarts); see DESIGN 1.2 on the mapping leak
 	n := run.N(24, 1200)
 	tssworld.RunCases(run, "c02", n, func(r *sim.Rng, i int) tssworld.Cfg { return baseCfg(r, i, thorough, 90) },
 		func(h *tssworld.Hist) []tssworld.Monitor { return setup(run, h, thorough, nil) }, nil)
@@ -752,15 +747,11 @@ func main() {
 			return c
 		}, func(h *tssworld.Hist) []tssworld.Monitor { return setup(run, h, thorough, &specs[h.Case]) }, nil)
 	}
-	kindsMu.Lock()
-	run.Count("msg-types-exercised", len(kinds))
-	var ks []string
-	for k := range kinds {
-		ks = append(ks, k)
+	if !run.IsShardChild() {
+		ks := run.CountersWithPrefix("msgtype:")
+		run.Count("msg-types-exercised", len(ks))
+		run.Extra("msg_types", ks)
 	}
-	sort.Strings(ks)
-	run.Extra("msg_types", ks)
-	kindsMu.Unlock()
 	for _, c := range []string{"params:accepted", "params:rejected-by-validation", "authority:transition-proposed", "blocks-compared-across-replicas", "sweep:param-values-accepted", "replica-restarted-from-db", "checktx-on-primary-only", "params:executed-then-rolled-back"} {
 		run.Require(c, 1)
 	}
@@ -792,9 +783,7 @@ func (m *divMon) OnTx(h *tssworld.Hist, tx *tssworld.TxRec) {
 		}
 	}
 	m.g.run.Distinct("msg:" + u)
-	kindsMu.Lock()
-	kinds[u] = true
-	kindsMu.Unlock()
+	m.g.run.Count("msgtype:"+u, 1)
 }
 
 func (m *divMon) OnEndBlock(h *tssworld.Hist, b *tssworld.BlockObs) {
